@@ -389,6 +389,28 @@ def run_roundtrip(case, ctx):
             check_obj(ctx, tskit, got, Es, f"tskit.load(skip_tables={sk_t},skip_refseq={sk_r})", loaded=True)
     finally:
         rm(path, fifo)
+    # ---- history: an index built earlier is stale once the edge table changes; dump must not write it
+    if t.has_index():
+        ctx.label("stale_index_history")
+        for how in ("add", "truncate"):
+            t2 = t.copy()
+            # low-level row operations: the Python wrappers would re-parse (possibly non-JSON) schema text
+            if how == "add":
+                t2.edges.ll_table.add_row(0.0, 1.0, 0, 0)
+            elif t2.edges.num_rows > 0:
+                t2.edges.ll_table.truncate(t2.edges.num_rows - 1)
+            else:
+                continue
+            ctx.check(not t2.has_index(), "stale_index", f"has_index() still True after edges.{how}")
+            p2 = scratch("stale.trees")
+            try:
+                t2.dump(p2)
+                back = tskit.TableCollection.load(p2)
+            finally:
+                rm(p2)
+            ctx.check(not back.has_index(), "stale_index", f"a stale index was written to the file (after edges.{how})")
+            ctx.check(back.equals(t2) and back.edges.num_rows == t2.edges.num_rows, "stale_index",
+                      f"collection modified after build_index (edges.{how}) does not reload equal")
 
 
 # ------------------------------------------------------------------ sub-check 2: streams
